@@ -1,6 +1,6 @@
 (* Lemmas about Model/Actuation.v at the reals (C27). *)
-From Coq Require Import ZArith List Bool PrimFloat Reals Lra Lia Psatz.
-From MJV Require Import Lib.Num Lib.NumR Model.Actuation.
+From Coq Require Import ZArith List Bool PrimFloat Reals Lra Lia Psatz Classical.
+From MJV Require Import Lib.Num Lib.NumR Model.Spatial Model.Actuation.
 Import ListNotations.
 Open Scope R_scope.
 
@@ -51,32 +51,185 @@ Qed.
 Lemma frac_nonneg (n d : R) : 0 <= n -> 0 < d -> 0 <= n / d.
 Proof. intros A C. apply Rmult_le_pos; [lra|]. left. apply Rinv_0_lt_compat; lra. Qed.
 
+(* ------------------------------------------------------------------ arrays addressed by Z *)
+Lemma upd_nat_length (a : list R) (n : nat) (v : R) : length (upd_nat a n v) = length a.
+Proof. revert n; induction a as [|x a IH]; intros [|n]; simpl; auto. Qed.
+
+Lemma updz_length (a : list R) (i : Z) (v : R) : length (updz a i v) = length a.
+Proof. unfold updz. destruct (i <? 0)%Z; auto using upd_nat_length. Qed.
+
+Lemma nth_upd_nat_other (a : list R) (n k : nat) (v : R) : n <> k -> nth k (upd_nat a n v) 0 = nth k a 0.
+Proof. revert n k; induction a as [|x a IH]; intros [|n] [|k] Hne; simpl; auto; try congruence. Qed.
+
+Lemma nth_upd_nat_same (a : list R) (n : nat) (v : R) : (n < length a)%nat -> nth n (upd_nat a n v) 0 = v.
+Proof. revert n; induction a as [|x a IH]; intros [|n] Hn; simpl in *; try lia; auto. apply IH. lia. Qed.
+
+Lemma rdz_updz_other (a : list R) (i j : Z) (v : R) : i <> j -> rdz (updz a i v) j = rdz a j.
+Proof.
+  intros Hne. unfold rdz, updz. num_R.
+  destruct (j <? 0)%Z eqn:Ej; auto. destruct (i <? 0)%Z eqn:Ei; auto.
+  apply nth_upd_nat_other. apply Z.ltb_ge in Ej. apply Z.ltb_ge in Ei. intro E. apply Hne. apply Z2Nat.inj; auto.
+Qed.
+
+Lemma rdz_updz_same (a : list R) (i : Z) (v : R) : (0 <= i < Z.of_nat (length a))%Z -> rdz (updz a i v) i = v.
+Proof.
+  intros Hi. unfold rdz, updz. num_R.
+  assert (E : (i <? 0)%Z = false) by (apply Z.ltb_ge; lia). rewrite E. apply nth_upd_nat_same. lia.
+Qed.
+
+Lemma upd_nat_beyond (a : list R) (n : nat) (v : R) : (length a <= n)%nat -> upd_nat a n v = a.
+Proof. revert n; induction a as [|x a IH]; intros [|n] Hn; simpl in *; auto; try lia. f_equal. apply IH. lia. Qed.
+
+(* without any bound: an update either leaves the entry alone or sets exactly that entry *)
+Lemma rdz_updz_cases (a : list R) (i o : Z) (v : R) :
+  rdz (updz a i v) o = rdz a o \/ (i = o /\ rdz (updz a i v) o = v).
+Proof.
+  destruct (Z.eq_dec i o) as [E|E]; [|left; apply rdz_updz_other; exact E]. subst o.
+  destruct (Z_lt_dec i 0) as [Hn|Hn].
+  - left. unfold updz. apply Z.ltb_lt in Hn. rewrite Hn. reflexivity.
+  - destruct (Z_lt_dec i (Z.of_nat (length a))) as [Hb|Hb].
+    + right. split; auto. apply rdz_updz_same. lia.
+    + left. unfold updz. assert (E : (i <? 0)%Z = false) by (apply Z.ltb_ge; lia). rewrite E.
+      rewrite upd_nat_beyond by lia. reflexivity.
+Qed.
+
+Lemma write_block_length (blk : list R) : forall (f : list R) (adr : Z), length (write_block f adr blk) = length f.
+Proof. induction blk as [|x r IH]; intros f adr; simpl; auto. rewrite IH. apply updz_length. Qed.
+
+Lemma write_block_other (blk : list R) :
+  forall (f : list R) (adr o : Z), ~ (adr <= o < adr + Z.of_nat (length blk))%Z -> rdz (write_block f adr blk) o = rdz f o.
+Proof.
+  induction blk as [|x r IH]; intros f adr o Ho; simpl; auto.
+  rewrite IH by (simpl length in Ho; lia). apply rdz_updz_other. simpl length in Ho. lia.
+Qed.
+
+Lemma write_block_inside (blk : list R) :
+  forall (f : list R) (adr : Z) (k : nat),
+    (0 <= adr)%Z -> (adr + Z.of_nat (length blk) <= Z.of_nat (length f))%Z -> (k < length blk)%nat ->
+    rdz (write_block f adr blk) (adr + Z.of_nat k) = nth k blk 0.
+Proof.
+  induction blk as [|x r IH]; intros f adr k H0 Hl Hk; simpl in Hk; [lia|].
+  cbn [write_block]. simpl length in Hl. destruct k as [|k].
+  - rewrite write_block_other by lia. replace (adr + Z.of_nat 0)%Z with adr by lia. apply rdz_updz_same. lia.
+  - replace (adr + Z.of_nat (S k))%Z with ((adr + 1) + Z.of_nat k)%Z by lia.
+    rewrite IH; [reflexivity|lia|rewrite updz_length; lia|lia].
+Qed.
+
+Lemma clip_block_length (n : nat) : forall (f : list R) (adr : Z) (lo hi : R), length (clip_block f adr n lo hi) = length f.
+Proof. induction n as [|n IH]; intros f adr lo hi; simpl; auto. rewrite IH. apply updz_length. Qed.
+
+Lemma clip_block_other (n : nat) :
+  forall (f : list R) (adr o : Z) (lo hi : R), ~ (adr <= o < adr + Z.of_nat n)%Z -> rdz (clip_block f adr n lo hi) o = rdz f o.
+Proof.
+  induction n as [|n IH]; intros f adr o lo hi Ho; simpl; auto.
+  rewrite IH by lia. apply rdz_updz_other. lia.
+Qed.
+
+Lemma clip_block_inside (n : nat) :
+  forall (f : list R) (adr o : Z) (lo hi : R),
+    (0 <= adr)%Z -> (adr <= o < adr + Z.of_nat n)%Z -> (o < Z.of_nat (length f))%Z ->
+    rdz (clip_block f adr n lo hi) o = clip (rdz f o) lo hi.
+Proof.
+  induction n as [|n IH]; intros f adr o lo hi H0 Ho Hl; [lia|].
+  cbn [clip_block]. destruct (Z.eq_dec o adr) as [E|E].
+  - subst o. rewrite clip_block_other by lia. apply rdz_updz_same. lia.
+  - rewrite IH; [|lia|lia|rewrite updz_length; lia]. rewrite rdz_updz_other by lia. reflexivity.
+Qed.
+
+(* generic facts about a pipeline stage that is a fold of per-actuator steps *)
+Lemma fold_frame {A : Type} (step : list R -> A -> list R) (touches : A -> Z -> Prop) (o : Z) :
+  (forall (x : A) (f : list R), ~ touches x o -> rdz (step f x) o = rdz f o) ->
+  forall (xs : list A) (f : list R), (forall x : A, In x xs -> ~ touches x o) -> rdz (fold_left step xs f) o = rdz f o.
+Proof.
+  intros Hstep xs. induction xs as [|x r IH]; intros f Hall; simpl; auto.
+  rewrite IH by (intros y Hy; apply Hall; right; exact Hy). apply Hstep. apply Hall. left; reflexivity.
+Qed.
+
+Lemma fold_inv {A : Type} (step : list R -> A -> list R) (P : list R -> Prop) :
+  forall xs : list A, (forall (x : A) (f : list R), In x xs -> P f -> P (step f x)) ->
+  forall f : list R, P f -> P (fold_left step xs f).
+Proof.
+  induction xs as [|x r IH]; intros Hstep f Hf; simpl; auto.
+  apply IH; [intros y g Hy; apply Hstep; right; exact Hy|]. apply Hstep; [left; reflexivity|exact Hf].
+Qed.
+
 (* ------------------------------------------------------------------ the clamps *)
-Lemma clamp_ctrl_range (a : @Actuator R) (u : R) :
-  a_ctrllimited a = true -> fst (a_ctrlrange a) <= snd (a_ctrlrange a) ->
-  fst (a_ctrlrange a) <= clamp_ctrl false a u <= snd (a_ctrlrange a).
-Proof. intros Hl Hr. unfold clamp_ctrl. rewrite Hl. apply clip_range; auto. Qed.
+Lemma clamp_ctrl_range (lo hi u : R) : lo <= hi -> lo <= clamp_ctrl false (true, lo, hi) u <= hi.
+Proof. intros Hr. unfold clamp_ctrl. apply clip_range; auto. Qed.
 
-Lemma clamp_ctrl_id (a : @Actuator R) (u : R) (noclamp : bool) :
-  fst (a_ctrlrange a) <= u <= snd (a_ctrlrange a) -> clamp_ctrl noclamp a u = u.
-Proof. intros Hr. unfold clamp_ctrl. destruct noclamp, (a_ctrllimited a); auto using clip_id. Qed.
+Lemma clamp_ctrl_id (lim : bool) (lo hi u : R) (noclamp : bool) : lo <= u <= hi -> clamp_ctrl noclamp (lim, lo, hi) u = u.
+Proof. intros Hr. unfold clamp_ctrl. destruct noclamp, lim; auto using clip_id. Qed.
 
-Lemma clamp_ctrl_off (a : @Actuator R) (u : R) (noclamp : bool) :
-  noclamp = true \/ a_ctrllimited a = false -> clamp_ctrl noclamp a u = u.
+Lemma clamp_ctrl_off (lim : bool) (lo hi u : R) (noclamp : bool) : noclamp = true \/ lim = false -> clamp_ctrl noclamp (lim, lo, hi) u = u.
 Proof. intros [E|E]; unfold clamp_ctrl; rewrite E; auto. destruct noclamp; auto. Qed.
 
-Lemma clamp_force_range (mask : Z) (a : @Actuator R) (f : R) :
-  a_forcelimited a = true -> actuatorDisabled mask (a_group a) = false ->
-  fst (a_forcerange a) <= snd (a_forcerange a) ->
-  fst (a_forcerange a) <= clamp_force mask a f <= snd (a_forcerange a).
-Proof. intros Hl Hd Hr. unfold clamp_force. rewrite Hl, Hd. apply clip_range; auto. Qed.
+(* the block of outputs owned by an actuator, in the output index space *)
+Definition inblock (a : @Actuator R) (o : Z) : Prop := (a_outadr a <= o < a_outadr a + a_outnum a)%Z.
+Definition wf_act (a : @Actuator R) : Prop :=
+  (0 <= a_outadr a)%Z /\ (is_so3 a = true -> a_outnum a = 3%Z) /\ (is_so3 a = false -> a_outnum a = 1%Z).
 
-Lemma clamp_force_id (mask : Z) (a : @Actuator R) (f : R) :
-  a_forcelimited a = false \/ actuatorDisabled mask (a_group a) = true \/
-  fst (a_forcerange a) <= f <= snd (a_forcerange a) -> clamp_force mask a f = f.
+Lemma clamp_block_length (mask : Z) (f : list R) (a : @Actuator R) : length (clamp_block mask f a) = length f.
 Proof.
-  intros [E|[E|E]]; unfold clamp_force; [rewrite E; auto|rewrite E; rewrite andb_false_r; auto|].
-  destruct (a_forcelimited a && negb (actuatorDisabled mask (a_group a))); auto using clip_id.
+  unfold clamp_block. destruct (a_forcelimited a && negb (actuatorDisabled mask (a_group a))); auto.
+  destruct (is_so3 a).
+  - destruct (_ <? _)%num; auto. rewrite !updz_length. reflexivity.
+  - apply clip_block_length.
+Qed.
+
+(* the clamp step of actuator a touches only its own output block *)
+Lemma clamp_block_other (mask : Z) (f : list R) (a : @Actuator R) (o : Z) :
+  wf_act a -> ~ inblock a o -> rdz (clamp_block mask f a) o = rdz f o.
+Proof.
+  intros [H0 [Hs Hn]] Ho. unfold inblock in Ho. unfold clamp_block.
+  destruct (a_forcelimited a && negb (actuatorDisabled mask (a_group a))); auto.
+  destruct (is_so3 a) eqn:E.
+  - rewrite (Hs eq_refl) in Ho. destruct (_ <? _)%num; auto. rewrite !rdz_updz_other by lia. reflexivity.
+  - apply clip_block_other. rewrite Z2Nat.id by (rewrite (Hn eq_refl); lia). exact Ho.
+Qed.
+
+(* the clamp applied to the output block of a scalar actuator uses the forcerange of THAT actuator *)
+Lemma clamp_block_scalar (mask : Z) (f : list R) (a : @Actuator R) (o : Z) :
+  wf_act a -> is_so3 a = false -> inblock a o -> (o < Z.of_nat (length f))%Z ->
+  rdz (clamp_block mask f a) o =
+  if a_forcelimited a && negb (actuatorDisabled mask (a_group a))
+  then clip (rdz f o) (fst (a_forcerange a)) (snd (a_forcerange a)) else rdz f o.
+Proof.
+  intros [H0 [Hs Hn]] E Ho Hl. unfold inblock in Ho. unfold clamp_block. rewrite E.
+  destruct (a_forcelimited a && negb (actuatorDisabled mask (a_group a))); auto.
+  apply clip_block_inside; auto. rewrite Z2Nat.id by (rewrite (Hn E); lia). exact Ho.
+Qed.
+
+Lemma clamp_block_skipped (mask : Z) (f : list R) (a : @Actuator R) :
+  a_forcelimited a = false \/ actuatorDisabled mask (a_group a) = true -> clamp_block mask f a = f.
+Proof. intros [E|E]; unfold clamp_block; rewrite E; [reflexivity|rewrite andb_false_r; reflexivity]. Qed.
+
+(* so3: the norm of the output block is bounded by forcerange[1] of that actuator *)
+Lemma norm3_scaled (x y z s : R) : 0 <= s -> norm3 (x * s, y * s, z * s) = s * norm3 (x, y, z).
+Proof.
+  intros Hs. unfold norm3, dot3. num_R.
+  replace (x * s * (x * s) + y * s * (y * s) + z * s * (z * s)) with (s * s * (x * x + y * y + z * z)) by ring.
+  rewrite sqrt_mult; [|nra|nra]. rewrite sqrt_square by exact Hs. reflexivity.
+Qed.
+
+Lemma clamp_block_so3 (mask : Z) (f : list R) (a : @Actuator R) :
+  wf_act a -> is_so3 a = true -> a_forcelimited a = true -> actuatorDisabled mask (a_group a) = false ->
+  0 <= snd (a_forcerange a) -> (a_outadr a + 3 <= Z.of_nat (length f))%Z ->
+  norm3 (vec3_at (clamp_block mask f a) (a_outadr a)) <= snd (a_forcerange a).
+Proof.
+  intros [H0 _] E Hl Hd Hh Hb. unfold clamp_block. rewrite E, Hl, Hd. cbn [andb negb]. num_R.
+  set (o := a_outadr a) in *. set (hi := snd (a_forcerange a)) in *.
+  destruct (Rltb hi (norm3 (vec3_at f o))) eqn:En.
+  - apply Rltb_true in En. set (n := norm3 (vec3_at f o)) in *.
+    assert (Hn : 0 < n) by lra.
+    unfold vec3_at at 1.
+    rewrite (rdz_updz_other _ (o + 2)%Z o) by lia. rewrite (rdz_updz_other _ (o + 1)%Z o) by lia.
+    rewrite (rdz_updz_same _ o) by lia.
+    rewrite (rdz_updz_other _ (o + 2)%Z (o + 1)%Z) by lia. rewrite (rdz_updz_same _ (o + 1)%Z) by (rewrite updz_length; lia).
+    rewrite (rdz_updz_same _ (o + 2)%Z) by (rewrite !updz_length; lia).
+    assert (Hs : 0 <= hi / n) by (apply frac_nonneg; lra).
+    rewrite norm3_scaled by exact Hs. fold (vec3_at f o). fold n.
+    right. field. lra.
+  - apply Rltb_false in En. exact En.
 Qed.
 
 Lemma nextActivation_range (a : @Actuator R) (h act adot : R) :
@@ -129,43 +282,149 @@ Proof.
   destruct (Rltb hi (tendon_total acts f (a_tendon a))); [ring|reflexivity].
 Qed.
 
-(* the whole pipeline for the i-th actuator of the model *)
-Lemma final_force_nth (mask : Z) (h : R) (tendons : list (bool * R * R)) (acts : list (@Actuator R))
-      (us : list R) (st : list (R * R * R)) (i : nat) (dz : @Actuator R * R * (R * R * R)) :
-  (i < length (zipped acts us st))%nat ->
-  nth i (actuator_forces mask h tendons acts us st) 0 =
-  final1 mask h tendons acts (raw_forces mask h acts us st) (nth i (zipped acts us st) dz).
+(* stage lengths *)
+Lemma stage_raw_length (mask : Z) (h : R) (nout : nat) (ctrl len vel : list R) (xs : list (@Actuator R * R)) :
+  length (stage_raw mask h nout ctrl len vel xs) = nout.
 Proof.
-  intros Hi. unfold actuator_forces.
-  rewrite (nth_indep _ 0 (final1 mask h tendons acts (raw_forces mask h acts us st) dz)) by (rewrite map_length; exact Hi).
-  apply map_nth.
+  unfold stage_raw.
+  apply (fold_inv (fun f x => write_block f (a_outadr (fst x)) (out_block mask h ctrl len vel x)) (fun f => length f = nout)).
+  - intros x f _ Hf. rewrite write_block_length. exact Hf.
+  - apply repeat_length.
 Qed.
 
-Lemma disabled_zero_force (mask : Z) (h : R) (tendons : list (bool * R * R)) (acts : list (@Actuator R))
-      (us : list R) (st : list (R * R * R)) (i : nat) (dz : @Actuator R * R * (R * R * R)) :
-  (i < length (zipped acts us st))%nat ->
-  actuatorDisabled mask (a_group (fst (fst (nth i (zipped acts us st) dz)))) = true ->
-  nth i (actuator_forces mask h tendons acts us st) 0 = 0.
+Lemma stage_tendon_length (tendons : list (bool * R * R)) (acts : list (@Actuator R)) (f0 : list R) :
+  length (stage_tendon tendons acts f0) = length f0.
 Proof.
-  intros Hi Hd. rewrite (final_force_nth _ _ _ _ _ _ _ dz Hi). unfold final1.
-  assert (E : raw1 mask h (nth i (zipped acts us st) dz) = 0).
-  { unfold raw1. destruct (nth i (zipped acts us st) dz) as [[a' u] [[act len] vel]] eqn:En.
-    apply raw_force_disabled. cbn [fst] in Hd. exact Hd. }
-  rewrite E, tendon_scale_zero. apply clamp_force_id. right; left. exact Hd.
+  unfold stage_tendon.
+  apply (fold_inv _ (fun f => length f = length f0)); auto.
+  intros a f _ Hf. destruct (a_tendon a <? 0)%Z; auto. rewrite updz_length. exact Hf.
 Qed.
 
-(* an enabled, force-limited actuator ends within its forcerange *)
-Lemma enabled_force_in_range (mask : Z) (h : R) (tendons : list (bool * R * R)) (acts : list (@Actuator R))
-      (us : list R) (st : list (R * R * R)) (i : nat) (dz : @Actuator R * R * (R * R * R)) :
-  (i < length (zipped acts us st))%nat ->
-  let a := fst (fst (nth i (zipped acts us st) dz)) in
+Lemma stage_clamp_length (mask : Z) (acts : list (@Actuator R)) (f : list R) : length (stage_clamp mask acts f) = length f.
+Proof.
+  unfold stage_clamp. apply (fold_inv (clamp_block mask) (fun g => length g = length f)); auto.
+  intros a g _ Hg. rewrite clamp_block_length. exact Hg.
+Qed.
+
+Lemma out_block_length (mask : Z) (h : R) (ctrl len vel : list R) (a : @Actuator R) (act : R) :
+  wf_act a -> Z.of_nat (length (out_block mask h ctrl len vel (a, act))) = a_outnum a.
+Proof.
+  intros [_ [Hs Hn]]. unfold out_block. destruct (is_so3 a) eqn:E.
+  - rewrite (Hs eq_refl). unfold so3_block. destruct (actuatorDisabled mask (a_group a)); [reflexivity|].
+    destruct (subQuat _ _) as [[e0 e1] e2]. reflexivity.
+  - rewrite (Hn eq_refl). reflexivity.
+Qed.
+
+Lemma out_block_disabled (mask : Z) (h : R) (ctrl len vel : list R) (a : @Actuator R) (act : R) (k : nat) :
+  actuatorDisabled mask (a_group a) = true -> nth k (out_block mask h ctrl len vel (a, act)) 0 = 0.
+Proof.
+  intros Hd. unfold out_block. destruct (is_so3 a).
+  - unfold so3_block. rewrite Hd. destruct k as [|[|[|[|k]]]]; reflexivity.
+  - rewrite raw_force_disabled by exact Hd. destruct k as [|[|k]]; reflexivity.
+Qed.
+
+Definition touches (mask : Z) (h : R) (ctrl len vel : list R) (x : @Actuator R * R) (o : Z) : Prop :=
+  (a_outadr (fst x) <= o < a_outadr (fst x) + Z.of_nat (length (out_block mask h ctrl len vel x)))%Z.
+
+Lemma touches_inblock (mask : Z) (h : R) (ctrl len vel : list R) (a : @Actuator R) (act : R) (o : Z) :
+  wf_act a -> (touches mask h ctrl len vel (a, act) o <-> inblock a o).
+Proof. intros Hw. unfold touches, inblock. cbn [fst]. rewrite (out_block_length mask h ctrl len vel a act Hw). tauto. Qed.
+
+Definition others_apart (xs : list (@Actuator R * R)) (o : Z) : Prop :=
+  forall x : @Actuator R * R, In x xs -> wf_act (fst x) /\ ~ inblock (fst x) o.
+
+(* stage 1 at an entry of the block of actuator a = the corresponding entry of its output block *)
+Lemma stage_raw_entry (mask : Z) (h : R) (nout : nat) (ctrl len vel : list R)
+      (pre post : list (@Actuator R * R)) (a : @Actuator R) (act : R) (k : nat) :
+  wf_act a -> others_apart post (a_outadr a + Z.of_nat k) ->
+  (Z.of_nat k < a_outnum a)%Z -> (a_outadr a + a_outnum a <= Z.of_nat nout)%Z ->
+  rdz (stage_raw mask h nout ctrl len vel (pre ++ (a, act) :: post)) (a_outadr a + Z.of_nat k) =
+  nth k (out_block mask h ctrl len vel (a, act)) 0.
+Proof.
+  intros Hwf Hpost Hk Hb. unfold stage_raw. rewrite fold_left_app. cbn [fold_left fst].
+  set (step := fun (f : list R) (x : @Actuator R * R) => write_block f (a_outadr (fst x)) (out_block mask h ctrl len vel x)).
+  set (f1 := fold_left step pre (repeat nzero nout)).
+  assert (L1 : length f1 = nout).
+  { apply (fold_inv step (fun f => length f = nout)).
+    - intros x f _ Hf. unfold step. rewrite write_block_length. exact Hf.
+    - apply repeat_length. }
+  rewrite (fold_frame step (touches mask h ctrl len vel) (a_outadr a + Z.of_nat k)).
+  - destruct Hwf as [H0 Hrest]. apply write_block_inside.
+    + exact H0.
+    + rewrite (out_block_length mask h ctrl len vel a act (conj H0 Hrest)). rewrite L1. exact Hb.
+    + apply Nat2Z.inj_lt. rewrite (out_block_length mask h ctrl len vel a act (conj H0 Hrest)). exact Hk.
+  - intros x f Hx. unfold step. apply write_block_other. exact Hx.
+  - intros x Hx Ht. destruct (Hpost x Hx) as [Hw Hn]. destruct x as [b actb]. apply Hn.
+    apply (touches_inblock mask h ctrl len vel b actb _ Hw). exact Ht.
+Qed.
+
+(* an actuator of a disabled group: every entry of its output block is zero after the whole pipeline,
+   provided the other actuators' blocks do not contain that entry (the compiler's cumulative layout) *)
+Lemma disabled_zero_force (mask : Z) (h : R) (nout : nat) (tendons : list (bool * R * R)) (ctrl len vel : list R)
+      (pre post : list (@Actuator R * R)) (a : @Actuator R) (act : R) (k : nat) :
+  wf_act a -> others_apart (pre ++ post) (a_outadr a + Z.of_nat k) ->
+  (Z.of_nat k < a_outnum a)%Z -> (a_outadr a + a_outnum a <= Z.of_nat nout)%Z ->
+  actuatorDisabled mask (a_group a) = true ->
+  rdz (actuator_forces mask h nout tendons ctrl len vel (pre ++ (a, act) :: post)) (a_outadr a + Z.of_nat k) = 0.
+Proof.
+  intros Hwf Hothers Hk Hb Hd. unfold actuator_forces.
+  set (o := (a_outadr a + Z.of_nat k)%Z) in *.
+  set (acts := map fst (pre ++ (a, act) :: post)).
+  assert (Hacts : forall b : @Actuator R, In b acts -> b = a \/ (wf_act b /\ ~ inblock b o)).
+  { intros b Hb'. unfold acts in Hb'. apply in_map_iff in Hb'. destruct Hb' as [x [Ex Hx]]. subst b.
+    apply in_app_or in Hx. destruct Hx as [Hx|[Hx|Hx]].
+    - right. apply Hothers. apply in_or_app. left; exact Hx.
+    - left. subst x. reflexivity.
+    - right. apply Hothers. apply in_or_app. right; exact Hx. }
+  set (f0 := stage_raw mask h nout ctrl len vel (pre ++ (a, act) :: post)).
+  assert (S1 : rdz f0 o = 0).
+  { unfold f0, o. rewrite stage_raw_entry; auto.
+    - apply out_block_disabled. exact Hd.
+    - intros x Hx. apply Hothers. apply in_or_app. right; exact Hx. }
+  assert (S2 : rdz (stage_tendon tendons acts f0) o = 0).
+  { unfold stage_tendon. apply (fold_inv _ (fun f => rdz f o = 0)); [|exact S1].
+    intros b f _ Hf. destruct (a_tendon b <? 0)%Z; [exact Hf|].
+    destruct (rdz_updz_cases f (a_outadr b) o (tendon_scale tendons acts f0 b (rdz f (a_outadr b)))) as [E|[E1 E2]].
+    - rewrite E. exact Hf.
+    - rewrite E2, E1, Hf. apply tendon_scale_zero. }
+  unfold stage_clamp. apply (fold_inv (clamp_block mask) (fun f => rdz f o = 0)); [|exact S2].
+  intros b f Hin Hf. destruct (Hacts b Hin) as [E|[Hw Hn]].
+  - subst b. rewrite clamp_block_skipped by (right; exact Hd). exact Hf.
+  - rewrite clamp_block_other by assumption. exact Hf.
+Qed.
+
+(* an enabled, force-limited scalar actuator ends within ITS OWN forcerange at ITS output address *)
+Lemma enabled_force_in_range (mask : Z) (h : R) (nout : nat) (tendons : list (bool * R * R)) (ctrl len vel : list R)
+      (pre post : list (@Actuator R * R)) (a : @Actuator R) (act : R) :
+  wf_act a -> is_so3 a = false -> others_apart post (a_outadr a) ->
+  (a_outadr a < Z.of_nat nout)%Z ->
   a_forcelimited a = true -> actuatorDisabled mask (a_group a) = false ->
   fst (a_forcerange a) <= snd (a_forcerange a) ->
-  fst (a_forcerange a) <= nth i (actuator_forces mask h tendons acts us st) 0 <= snd (a_forcerange a).
+  fst (a_forcerange a) <= rdz (actuator_forces mask h nout tendons ctrl len vel (pre ++ (a, act) :: post)) (a_outadr a)
+  <= snd (a_forcerange a).
 Proof.
-  intros Hi a Hl Hd Hr. rewrite (final_force_nth _ _ _ _ _ _ _ dz Hi). unfold final1. fold a.
-  apply clamp_force_range; assumption.
+  intros Hwf Hs Hpost Hb Hl Hd Hr. unfold actuator_forces.
+  rewrite map_app. cbn [map fst]. unfold stage_clamp. rewrite fold_left_app. cbn [fold_left].
+  set (f2 := stage_tendon tendons (map fst pre ++ a :: map fst post) (stage_raw mask h nout ctrl len vel (pre ++ (a, act) :: post))).
+  set (f3 := fold_left (clamp_block mask) (map fst pre) f2).
+  assert (L3 : length f3 = nout).
+  { unfold f3. fold (stage_clamp mask (map fst pre) f2). rewrite stage_clamp_length. unfold f2.
+    rewrite stage_tendon_length. apply stage_raw_length. }
+  rewrite (fold_frame (clamp_block mask) (fun b o' => ~ (wf_act b /\ ~ inblock b o')) (a_outadr a)).
+  - assert (Hin : inblock a (a_outadr a)).
+    { destruct Hwf as [H0 [_ Hn]]. unfold inblock. rewrite (Hn Hs). lia. }
+    rewrite clamp_block_scalar; auto; [|rewrite L3; exact Hb]. rewrite Hl, Hd. cbn [andb negb]. apply clip_range. exact Hr.
+  - intros b f Hx. apply NNPP in Hx. destruct Hx as [Hw Hn]. apply clamp_block_other; assumption.
+  - intros b Hx Hc. apply Hc. apply in_map_iff in Hx. destruct Hx as [x [Ex Hx]]. subst b. apply Hpost. exact Hx.
 Qed.
+
+(* mjDSBL_ACTUATION: everything is zero *)
+Lemma actuation_off_zero (mask : Z) (h : R) (nout nv : nat) (noclamp : bool) (lims : list (bool * R * R))
+      (ctrl len vel : list R) (xs : list (@Actuator R * R)) (tendons : list (bool * R * R)) (moment : list (list R))
+      (dofs : list (option R * bool * R * R)) :
+  fwd_actuation true mask h nout nv noclamp lims ctrl len vel xs tendons moment dofs =
+  (map (fun _ => 0) xs, repeat 0 nout, repeat 0 nv).
+Proof. reflexivity. Qed.
 
 (* ------------------------------------------------------------------ the affine law *)
 Lemma affine_law (mask : Z) (a : @Actuator R) (h u act len vel : R) :
